@@ -684,15 +684,24 @@ func (s *Session) initMemManager() error {
 	return nil
 }
 
-func (s *Session) extractShmMetadata(body []byte) (bufferPath string, queuePath string) {
+func (s *Session) extractShmMetadata(body []byte) (bufferPath string, queuePath string, err error) {
 	offset := 0
+	if len(body) < offset+2 {
+		return "", "", errShmMetadataTooShort
+	}
 	queuePathLen := int(binary.BigEndian.Uint16(body[0:2]))
 	offset += 2
+	if len(body) < offset+queuePathLen+2 {
+		return "", "", errShmMetadataTooShort
+	}
 	queuePath = string(body[offset : offset+queuePathLen])
 	offset += queuePathLen
 
 	bufferPathLen := int(binary.BigEndian.Uint16(body[offset : offset+2]))
 	offset += 2
+	if len(body) < offset+bufferPathLen {
+		return "", "", errShmMetadataTooShort
+	}
 	bufferPath = string(body[offset : offset+bufferPathLen])
 	return
 }
